@@ -491,6 +491,10 @@ def run(ctx):
                 if base == "trr" and os.path.getsize(path) <= 40000:
                     reqs.append("trr " + open(path, "rb").read().hex())
                     meta.append(("trrbytes", k, ext, (np.asarray(time, dtype=np.float32), None if cellmode == "none" else t.unitcell_vectors.astype(np.float32), xyz.astype(np.float32), na), rp))
+                # ---- the bytes of the .dcd file read by the Lean model (Model/Dcd.lean, theorem c01_dcd_roundtrip): control record and frames
+                if base == "dcd" and os.path.getsize(path) <= 40000 and native:
+                    reqs.append("dcd " + open(path, "rb").read().hex())
+                    meta.append(("dcdbytes", k, ext, (native, nf, na, cellmode != "none"), rp))
                 # ---- time
                 stores_time = base in ("h5", "xtc", "trr", "nc", "gro", "dtr", "rst7", "ncrst")
                 if stores_time and np.abs(l.time - time).max() > 1e-5 * max(1.0, float(np.abs(time).max())):
@@ -557,6 +561,30 @@ def run(ctx):
                 want = [stem + "." + s for s in m.split(",")]
                 if files != want:
                     ctx.broke("correspondence:restart-names", "case %d: files %s, the model names %s" % (k, files[:4], want[:4]))
+                continue
+            if what == "dcdbytes":
+                nat_, nf_, na_, hc_ = data
+                ctx.count(".dcd files read byte by byte by the Lean model")
+                if not m.startswith("ok"):
+                    viol("native-layout|dcd|model-reader", "the byte-level model cannot follow the .dcd file mdtraj wrote (%s)" % m[:60], rp)
+                    continue
+                parts = m.split(";")
+                nset, istart, nsavc, nstep, hcell, natoms = [int(v) for v in parts[0].split()[1:]]
+                if nset != nf_ or natoms != na_ or len(parts) - 1 != nf_ or bool(hcell) != hc_:
+                    viol("native-layout|dcd|control-record", "the control record of the .dcd file says %d frames of %d atoms, cell flag %d, and the file holds %d frames; the trajectory has %d frames of %d atoms, cell: %s" % (
+                        nset, natoms, hcell, len(parts) - 1, nf_, na_, hc_), rp)
+                    continue
+                for f, fr in enumerate(parts[1:]):
+                    cs_, rest_ = fr[2:].split(" X ")
+                    xs_, rest_ = rest_.split(" Y ")
+                    ys_, zs_ = rest_.split(" Z ")
+                    fq = lambda a: [Fraction(v) for v in a.split()]
+                    mx = [v for trip in zip(fq(xs_), fq(ys_), fq(zs_)) for v in trip]
+                    px = [Fraction(float(v)) for v in nat_[f][0]]
+                    pc = [] if nat_[f][1] is None else [Fraction(float(v)) for v in nat_[f][1]]
+                    if mx != px or fq(cs_) != pc:
+                        viol("native-layout|dcd|readers-disagree", "frame %d of the .dcd file: the byte-level model and the independent Python reader extract different numbers" % f, rp)
+                        break
                 continue
             if what == "trrbytes":
                 tm_, bx_, xy_, na_ = data
